@@ -817,6 +817,9 @@ func finish(b *builder, m *merged, pl *plan, id, tier string, sd int64, start ti
 		fmt.Println(l)
 	}
 
+	if n := m.counters["inconclusive_trials"]; n > 0 {
+		m.inconc = append(m.inconc, fmt.Sprintf("%d trial(s) were abandoned by their own wall-clock watchdog (neither held nor violated)", n))
+	}
 	evals := m.counters["evaluations"]
 	distinct := int64(len(m.distinct["nontrivial"]))
 	cov := map[string]any{
